@@ -12,11 +12,11 @@ LEVEL_TEXT = ("Lean theorems over the small-step system controller x abstract ex
               "late transfer notice and purges). Tied to the real controller by per-phase state correspondence (SimBridge) and a sequential-interpreter oracle, incl. "
               "the results a gateway-driven run reports through the real Reporter; the path from the controller's commands to the execution of a task (runner "
               "argument binding, output publication, shm, data server, zmq) is not proved but sampled end to end on real local clusters. ")
-LEVEL_NOTE = ("modelled, not verified: scheduler/api.py initialize/plan, scheduler/assign.py build_assignment + the pops of _assignment_heuristic, controller/act.py act/flush_queues, controller/notify.py notify/consider_*, impl.run loop skeleton (Model/Ctrl.lean, one Lean function per Python function). Abstracted as an oracle argument validated for admissibility by the model and supplied from what the real run chose: which (idle worker, computable task) pairs the distance/overhead heuristics and host->component migration pick per round, and which `available` host is the transmit source; theorems quantify over all admissible choices. Executors are abstract (Env; SimBridge mirrors it): a dispatched task runs once its inputs are on its host and publishes outputs in index order; transmit/fetch read the source store; purge is immediate. Hypothesis WF: tasks topologically numbered, inputs duplicate-free, >=1 output per task, requested outputs exist, worker ids distinct (the generator guarantees it). Fixed on the way: completion of a multi-output task was inferred from the notice of its LAST output, so under any-order delivery a run could spin, wait forever or exit early (fix commit d9c96b4, finding C01-last-output-overtakes now status fixed; corpus witnesses kept as regression inputs). Task values are uninterpreted terms: argument binding inside a task is C10, byte-faithful copies are C07, real (cloud)pickle is sampled only. Sampled, not modelled (harness/ekw/c01_real.py, 3 runs quick / 40 thorough): executor/runner/runner.py run (statics, positional and keyword edges, keyword edges into defaulted parameters, generator outputs in declaration order), runner/memory.py, runner/entrypoint.py, executor/executor.py, data_server.py and the zmq/shm transport, by end-to-end runs of the real controller.impl.run + Bridge + forked executors on 1-2 hosts x 1-2 workers against a sequential interpreter. Since the audit response: commands are interpreted with what they carry (TaskSequence.publish: a body publishes only the outputs named; the controller names all), termination is proved (Lemmas/SchedTerm*.lean; hypotheses WF, WFC, Feasible), the transmit source the real run took is additionally compared with the model's scan over the recorded iteration order of ds2host (another `available` host than the first is tolerated and counted).")
+LEVEL_NOTE = ("modelled, not verified: scheduler/api.py initialize/plan, scheduler/assign.py build_assignment + the pops of _assignment_heuristic, controller/act.py act/flush_queues, controller/notify.py notify/consider_*, impl.run loop skeleton (Model/Ctrl.lean, one Lean function per Python function). Abstracted as an oracle argument validated for admissibility by the model and supplied from what the real run chose: which (idle worker, computable task) pairs the distance/overhead heuristics and host->component migration pick per round, and which `available` host is the transmit source; theorems quantify over all admissible choices. Executors are abstract (Env; SimBridge mirrors it): a dispatched task runs once its inputs are on its host and publishes outputs in index order; transmit/fetch read the source store; purge is immediate. Hypothesis WF: tasks topologically numbered, inputs duplicate-free, >=1 output per task, requested outputs exist, worker ids distinct (the generator guarantees it). Fixed on the way: completion of a multi-output task was inferred from the notice of its LAST output, so under any-order delivery a run could spin, wait forever or exit early (fix commit d9c96b4, finding C01-last-output-overtakes now status fixed; corpus witnesses kept as regression inputs). Task values are uninterpreted terms: argument binding inside a task is C10, byte-faithful copies are C07, real (cloud)pickle is sampled only. Sampled, not modelled (harness/ekw/c01_real.py, 10 runs quick / 48 thorough, one per family: dense multi-host, GPU incl. 11-13 workers on one host, custom serdes, ndarray values, many positional arguments, replicated ndarray outputs, …): executor/runner/runner.py run (statics, positional and keyword edges, keyword edges into defaulted parameters, generator outputs in declaration order), runner/memory.py, runner/entrypoint.py, executor/executor.py, data_server.py and the zmq/shm transport, by end-to-end runs of the real controller.impl.run + Bridge + forked executors on 1-3 hosts x 1-3 workers (and 1 host x 11-13 GPU workers) against a sequential interpreter. Since the audit response: commands are interpreted with what they carry (TaskSequence.publish: a body publishes only the outputs named; the controller names all), termination is proved (Lemmas/SchedTerm*.lean; hypotheses WF, WFC, Feasible), the transmit source the real run took is additionally compared with the model's scan over the recorded iteration order of ds2host (another `available` host than the first is tolerated and counted).")
 TECHNIQUE = "Lean 4 inductive system invariant (StoreSound + fetch pipeline) over a small-step transition system, with differential state correspondence against the real controller driven through SimBridge"
 LEAN_PROPS = ["EkwVerif.Props.C01"]
 LEAN_DRIVERS = ["Ctrl"]
-RULE = ctrl_check.RULE + (" || real-cluster runs (8 quick / 48 thorough, three at a time in background threads): random jobs of 2-8 real callables (12-16 in the "
+RULE = ctrl_check.RULE + (" || real-cluster runs (10 quick / 48 thorough, three at a time in background threads): random jobs of 2-8 real callables (12-16 in the "
                           "wide family) whose values are ints/strings/tuples/bytes/NumPy arrays (int64/float64/uint16/big-endian, 0-d to 2-d, "
                           "non-contiguous views)/Box (a type that refuses pickle and travels only through the serde pair the job registers in "
                           "JobInstance.serdes), built injectively from every bound parameter; static and upstream inputs by position and by keyword, "
@@ -26,7 +26,10 @@ RULE = ctrl_check.RULE + (" || real-cluster runs (8 quick / 48 thorough, three a
                           "the real controller.impl.run + Bridge + forked executors (zmq tcp, shm) on 1-3 hosts x 1-3 workers (workers+1 source tasks "
                           "on several hosts, so that inter-host transfers happen), with CASCADE_GPU_COUNT set and needs_gpu tasks (family gpu; family "
                           "wide-gpu: 1 host x 11-13 GPU workers, one GPU task for each), a linear chain on one host (family chain: purges while later "
-                          "tasks run); one case of every family in the quick tier, topped up until the tier has seen an inter-host transfer and a "
+                          "tasks run), tasks called with 11-13 positional arguments (family many-pos: all static via with_values(*args), and statics "
+                          "mixed with one or two positions fed by edges, a static at a position >= 10, no two static values equal), requested outputs "
+                          "whose value is an ndarray of several elements and which are also consumed on another host (family nd-replicated: 2-3 hosts "
+                          "x 1 worker, one array source per host, joins over pairs of them: the same dataset is replicated and fetched); one case of every family in the quick tier, topped up until the tier has seen an inter-host transfer and a "
                           "purge. Every requested value is compared (type, dtype and shape included) with a sequential interpreter of the "
                           "JobInstance; from a trace written by the task bodies, the harness-side executor launcher and a log of the Bridge commands "
                           "(nothing of the controller's State) the oracle also decides: a task body is entered at most once and in the process of "
